@@ -49,6 +49,8 @@ def main(argv=None):
         print("%s: analysing %d units under %s (tier=%s)" % (prop, len(pkg.units), pkg.root, args.tier))
         run = Run(prop, args.tier, args.repo, mod.LEVEL, pkg=pkg, only=only)
         run.no_evidence = args.no_evidence
+        from . import optsem as _os
+        _os.TIER = args.tier
         try:
             mod.run(run, pkg, args.tier)
             if args.tier == "thorough" and only is None and not args.no_selftest:
